@@ -304,6 +304,26 @@ func init() {
 		"math.Float64frombits": func(e *Exec, t *Thread, a []Value, g bool) (Value, bool) {
 			return done(e.C.FFromBits(a[0].(*term.T)))
 		},
+		"math.Abs":   func(e *Exec, t *Thread, a []Value, g bool) (Value, bool) { return done(e.C.FAbs(a[0].(*term.T))) },
+		"math.Floor": func(e *Exec, t *Thread, a []Value, g bool) (Value, bool) { return done(e.C.FRound(a[0].(*term.T), 3)) },
+		"math.Ceil":  func(e *Exec, t *Thread, a []Value, g bool) (Value, bool) { return done(e.C.FRound(a[0].(*term.T), 2)) },
+		"math.Trunc": func(e *Exec, t *Thread, a []Value, g bool) (Value, bool) { return done(e.C.FRound(a[0].(*term.T), 4)) },
+		"math.Round": func(e *Exec, t *Thread, a []Value, g bool) (Value, bool) { return done(e.C.FRound(a[0].(*term.T), 1)) },
+		"math.RoundToEven": func(e *Exec, t *Thread, a []Value, g bool) (Value, bool) {
+			return done(e.C.FRound(a[0].(*term.T), 0))
+		},
+		"math.IsNaN": func(e *Exec, t *Thread, a []Value, g bool) (Value, bool) { return done(e.C.FIsNaN(a[0].(*term.T))) },
+		"math.IsInf": func(e *Exec, t *Thread, a []Value, g bool) (Value, bool) {
+			f := a[0].(*term.T)
+			sgn := e.toInt(a[1], types.Typ[types.Int])
+			c := e.C
+			inf := c.FPConst(64, 0x7FF0000000000000)
+			ninf := c.FPConst(64, 0xFFF0000000000000)
+			pos := c.FCmp(term.OpFEq, f, inf)
+			neg := c.FCmp(term.OpFEq, f, ninf)
+			z := c.BVConst(64, 0)
+			return done(c.BOr(c.BAnd(c.Cmp(term.OpSLe, z, sgn), pos), c.BAnd(c.Cmp(term.OpSLe, sgn, z), neg)))
+		},
 		"math/rand.Float64": func(e *Exec, t *Thread, a []Value, g bool) (Value, bool) {
 			if e.Cfg.RandChoice {
 				// representative values instead of a symbolic float (keeps virtual time concrete)
@@ -350,6 +370,18 @@ func init() {
 			s.vc = vcCopy(t.vc)
 			e.memVer++
 			return done(nil)
+		},
+		"(*sync.RWMutex).Lock": func(e *Exec, t *Thread, a []Value, g bool) (Value, bool) {
+			return stubs["(*sync.Mutex).Lock"](e, t, a, g)
+		},
+		"(*sync.RWMutex).Unlock": func(e *Exec, t *Thread, a []Value, g bool) (Value, bool) {
+			return stubs["(*sync.Mutex).Unlock"](e, t, a, g)
+		},
+		"(*sync.RWMutex).RLock": func(e *Exec, t *Thread, a []Value, g bool) (Value, bool) {
+			return stubs["(*sync.Mutex).Lock"](e, t, a, g)
+		},
+		"(*sync.RWMutex).RUnlock": func(e *Exec, t *Thread, a []Value, g bool) (Value, bool) {
+			return stubs["(*sync.Mutex).Unlock"](e, t, a, g)
 		},
 		"(*sync.WaitGroup).Add": func(e *Exec, t *Thread, a []Value, g bool) (Value, bool) {
 			o := e.syncObj(a[0].(Ptr))
@@ -423,6 +455,45 @@ func init() {
 			p := a[0].(Ptr)
 			if tm := e.tickers[p.Obj]; tm != nil {
 				tm.Active = false
+			}
+			return done(nil)
+		},
+		"time.NewTimer": func(e *Exec, t *Thread, a []Value, g bool) (Value, bool) {
+			tm := e.newTimer(e.toInt(a[0], types.Typ[types.Int64]))
+			tm.Ch = e.newChan(1, e.timeChanType())
+			tt := e.World.Pkgs["time"].Type("Timer").Type()
+			st := e.zero(tt).(*Struct)
+			st.F[0] = tm.Ch
+			o := e.newObj(tt, st)
+			e.tickers[o] = tm
+			return done(Ptr{Obj: o})
+		},
+		"(*time.Timer).Stop": func(e *Exec, t *Thread, a []Value, g bool) (Value, bool) {
+			p := a[0].(Ptr)
+			was := false
+			if tm := e.tickers[p.Obj]; tm != nil {
+				was = tm.Active
+				tm.Active = false
+			}
+			return done(e.C.BoolConst(was))
+		},
+		"(*time.Timer).Reset": func(e *Exec, t *Thread, a []Value, g bool) (Value, bool) {
+			p := a[0].(Ptr)
+			was := false
+			if tm := e.tickers[p.Obj]; tm != nil {
+				was = tm.Active
+				tm.Active = true
+				tm.Deadline = e.C.Bin(term.OpAdd, e.nowT(), e.toInt(a[1], types.Typ[types.Int64]))
+			}
+			return done(e.C.BoolConst(was))
+		},
+		"(*time.Ticker).Reset": func(e *Exec, t *Thread, a []Value, g bool) (Value, bool) {
+			p := a[0].(Ptr)
+			if tm := e.tickers[p.Obj]; tm != nil {
+				d := e.toInt(a[1], types.Typ[types.Int64])
+				tm.Active = true
+				tm.Period = d
+				tm.Deadline = e.C.Bin(term.OpAdd, e.nowT(), d)
 			}
 			return done(nil)
 		},
@@ -516,6 +587,21 @@ func init() {
 		"(*net.UDPConn).Close": netClose,
 		"(*net.TCPConn).Close": netClose,
 		"(*net.conn).Close":    netClose,
+
+		"errors.Is": func(e *Exec, t *Thread, a []Value, g bool) (Value, bool) {
+			// identity comparison (sentinel errors); wrapped errors are opaque here
+			return done(e.ifaceEq(a[0].(Iface), a[1].(Iface)))
+		},
+		"(*strings.Builder).copyCheck": func(e *Exec, t *Thread, a []Value, g bool) (Value, bool) { return done(nil) },
+		"(*strings.Builder).String": func(e *Exec, t *Thread, a []Value, g bool) (Value, bool) {
+			st := e.load(a[0].(Ptr)).(*Struct)
+			buf := st.F[1].(Slice)
+			out := make([]*term.T, buf.Len)
+			for i := range out {
+				out[i] = e.sliceElem(buf, i).(*term.T)
+			}
+			return done(&Str{B: out})
+		},
 
 		"reflect.TypeOf": func(e *Exec, t *Thread, a []Value, g bool) (Value, bool) {
 			iv := a[0].(Iface)
@@ -632,6 +718,71 @@ func init() {
 		},
 		"strings.Clone":              func(e *Exec, t *Thread, a []Value, g bool) (Value, bool) { return done(a[0]) },
 		"internal/stringslite.Clone": func(e *Exec, t *Thread, a []Value, g bool) (Value, bool) { return done(a[0]) },
+	}
+}
+
+// atomicOp: sync/atomic operations are scheduling points and synchronise (acquire+release) on the address.
+func atomicOp(f func(e *Exec, p Ptr, a []Value) Value) stubFn {
+	return func(e *Exec, t *Thread, a []Value, g bool) (Value, bool) {
+		if !g {
+			t.pend = &pending{kind: pkYield}
+			return nil, false
+		}
+		p := a[0].(Ptr)
+		if p.IsNil() {
+			e.goPanic("invalid memory address or nil pointer dereference")
+		}
+		st := e.sync(e.syncObj(p))
+		vcJoin(&t.vc, st.vc)
+		e.tick(t)
+		saved := e.raceCheck
+		e.raceCheck = false // atomic accesses do not race with each other
+		r := f(e, p, a)
+		e.raceCheck = saved
+		st.vc = vcCopy(t.vc)
+		e.memVer++
+		return done(r)
+	}
+}
+
+func init() {
+	load := atomicOp(func(e *Exec, p Ptr, a []Value) Value { return e.load(p) })
+	store := atomicOp(func(e *Exec, p Ptr, a []Value) Value { e.store(p, a[1]); return nil })
+	add := atomicOp(func(e *Exec, p Ptr, a []Value) Value {
+		n := e.C.Bin(term.OpAdd, e.load(p).(*term.T), a[1].(*term.T))
+		e.store(p, n)
+		return n
+	})
+	swap := atomicOp(func(e *Exec, p Ptr, a []Value) Value {
+		old := e.load(p)
+		e.store(p, a[1])
+		return old
+	})
+	cas := atomicOp(func(e *Exec, p Ptr, a []Value) Value {
+		cur := e.load(p)
+		var eq *term.T
+		switch c := cur.(type) {
+		case *term.T:
+			eq = e.C.Eq(c, a[1].(*term.T))
+		case Ptr:
+			eq = e.C.BoolConst(ptrEq(c, a[1].(Ptr)))
+		default:
+			e.unsupported("CompareAndSwap on %T", cur)
+		}
+		if e.Branch(eq, "cas") {
+			e.store(p, a[2])
+			return e.C.True
+		}
+		return e.C.False
+	})
+	for _, ty := range []string{"Int32", "Int64", "Uint32", "Uint64", "Uintptr", "Pointer"} {
+		stubs["sync/atomic.Load"+ty] = load
+		stubs["sync/atomic.Store"+ty] = store
+		stubs["sync/atomic.Swap"+ty] = swap
+		stubs["sync/atomic.CompareAndSwap"+ty] = cas
+		if ty != "Pointer" {
+			stubs["sync/atomic.Add"+ty] = add
+		}
 	}
 }
 
